@@ -14,7 +14,9 @@
 static uint32_t crc32_table[256];
 static bool crc32_initialized = false;
 
-static void crc32_init(void) {
+/* Built once before main() runs: the daemon deserialises modules on many session threads at once,
+ * and a lazily built table is a data race between the first sessions. */
+__attribute__((constructor)) static void crc32_init(void) {
     if (crc32_initialized) return;
     for (uint32_t i = 0; i < 256; i++) {
         uint32_t crc = i;
